@@ -58,6 +58,20 @@ extern struct verif_cop_ghost __verif_cop;
 /* ghost indices: arbitrary, never assigned (forall-generalisation) */
 extern uint32_t __verif_cop_k;      /* byte index into a string */
 extern uint32_t __verif_cop_slen;   /* length of the string argument */
+/* the peer's scripted reply (caller view): arbitrary, NEVER assigned.  Fixing the reply before the call lets a
+ * postcondition say what the caller must do WITH a well-formed reply even on paths where it never asks for the
+ * payload (C15.reply.accept): cop_recv_header hands out (type, len), cop_recv_payload succeeds iff pay_ok,
+ * cop_deserialize_value decodes iff deser_ok and then yields the value (val_tag, val_bits). */
+struct verif_cop_peer {
+    uint8_t  type;       /* msg_type of the response header */
+    uint32_t len;        /* payload_len of the response header */
+    _Bool    pay_ok;     /* the announced payload arrives completely */
+    _Bool    deser_ok;   /* the payload bytes decode to a value */
+    uint8_t  val_tag;    /* that value */
+    uint64_t val_bits;
+};
+extern struct verif_cop_peer __verif_cop_peer;
+#define COP_VAL_BITS(v) (*(const uint64_t *)&(v)->as)
 
 #ifndef VERIF_TAG
 #define VERIF_TAG 0
@@ -270,8 +284,8 @@ __CPROVER_ensures(__CPROVER_return_value ==> __verif_cop.wr_total == __CPROVER_o
 #if defined(COP_VIEW_CALLER)
 /* ---- caller view: what vm_ffi_call_cop / vm_ffi_cop_stop may rely on (used to REPLACE calls only) ----
  * cop_serialize_value : conjunction of C15.ser.<scalar> and C15.ser.string (r_ok/w_ok instead of fresh objects)
- * cop_deserialize_value: the C16.deser.safe contract (enforced per tag class; the string class is REFUTED on the
- *                        unchanged tree: every use of this view is conditional on that finding being fixed)
+ * cop_deserialize_value: the C16.deser.safe contract (enforced per tag class; the string class held only after repo
+ *                        fix 8d9b21a) + the peer script: whether the bytes decode and to what is __verif_cop_peer
  * cop_send / cop_recv_*: C16.send.cop_send, C16.recv.header, C16.recv.payload + ghost bookkeeping of failures */
 #define COP_SLEN(v) ((v)->as.string ? (uint64_t)(v)->as.string->length : (uint64_t)0)
 uint32_t cop_serialize_value(const NanoValue *val, uint8_t *buf, uint32_t buf_size)
@@ -293,7 +307,11 @@ __CPROVER_requires(__CPROVER_w_ok(out, sizeof(*out)))
 __CPROVER_requires(__CPROVER_rw_ok(heap, sizeof(*heap)))
 __CPROVER_assigns(__CPROVER_object_upto(out, sizeof(*out)), __CPROVER_object_whole(heap))
 __CPROVER_ensures(__CPROVER_return_value <= buf_size)
-__CPROVER_ensures(__CPROVER_return_value != 0 ==> COP_IS_TRANSFERABLE(out->tag));
+__CPROVER_ensures(__CPROVER_return_value != 0 ==> COP_IS_TRANSFERABLE(out->tag))
+/* the peer's script decides whether the bytes decode, and to what */
+__CPROVER_ensures(__CPROVER_return_value != 0 ==> (__verif_cop_peer.deser_ok && out->tag == __verif_cop_peer.val_tag &&
+                                                   COP_VAL_BITS(out) == __verif_cop_peer.val_bits))
+__CPROVER_ensures((__verif_cop_peer.deser_ok && buf_size > 0 && COP_IS_TRANSFERABLE(__verif_cop_peer.val_tag)) ==> __CPROVER_return_value != 0);
 
 bool cop_send(int fd, CopMsgType type, const void *payload, uint32_t payload_len)
 __CPROVER_requires(payload == NULL || payload_len == 0 || __CPROVER_r_ok(payload, payload_len))
@@ -312,6 +330,7 @@ bool cop_recv_header(int fd, CopMsgHeader *hdr)
 __CPROVER_requires(__CPROVER_w_ok(hdr, sizeof(*hdr)))
 __CPROVER_assigns(__CPROVER_object_upto(hdr, sizeof(*hdr)), __verif_cop)
 __CPROVER_ensures(__CPROVER_return_value ==> (hdr->version == COP_PROTO_VERSION && hdr->payload_len <= COP_MAX_PAYLOAD))
+__CPROVER_ensures(__CPROVER_return_value ==> (hdr->msg_type == __verif_cop_peer.type && hdr->payload_len == __verif_cop_peer.len))
 __CPROVER_ensures(__verif_cop.hdr_fail == (__CPROVER_old(__verif_cop.hdr_fail) || !__CPROVER_return_value))
 __CPROVER_ensures(__verif_cop.req_sent == __CPROVER_old(__verif_cop.req_sent) && __verif_cop.req_len == __CPROVER_old(__verif_cop.req_len) &&
                   __verif_cop.req_fail == __CPROVER_old(__verif_cop.req_fail) && __verif_cop.pay_fail == __CPROVER_old(__verif_cop.pay_fail) &&
@@ -321,6 +340,7 @@ __CPROVER_ensures(__verif_cop.req_sent == __CPROVER_old(__verif_cop.req_sent) &&
 bool cop_recv_payload(int fd, void *buf, uint32_t len)
 __CPROVER_requires(len == 0 || __CPROVER_w_ok(buf, len))
 __CPROVER_assigns(len > 0: __CPROVER_object_upto(buf, len); __verif_cop)
+__CPROVER_ensures(__CPROVER_return_value == __verif_cop_peer.pay_ok)
 __CPROVER_ensures(__verif_cop.pay_fail == (__CPROVER_old(__verif_cop.pay_fail) || !__CPROVER_return_value))
 __CPROVER_ensures(__verif_cop.req_sent == __CPROVER_old(__verif_cop.req_sent) && __verif_cop.req_len == __CPROVER_old(__verif_cop.req_len) &&
                   __verif_cop.req_fail == __CPROVER_old(__verif_cop.req_fail) && __verif_cop.hdr_fail == __CPROVER_old(__verif_cop.hdr_fail) &&
